@@ -380,6 +380,11 @@ func Gate(fn *ssa.Function, g Guard, success SuccessFn) GateResult {
 					}
 				}
 			}
+			// confirm with the nil-test-sensitive search: a return that is reachable in the graph
+			// but only along paths that contradict their own nil tests is not an escape
+			if len(removed) > 0 && !FeasibleReach(fn, removed, r.Block()) {
+				continue
+			}
 			res.Escapes = append(res.Escapes, sp)
 		}
 	}
